@@ -415,6 +415,13 @@ fn _parse_file_path(path: &str, git_diff_name: bool) -> String {
     // When git config 'core.quotepath = true' (the default), and `path` contains
     // non-ASCII characters, a backslash, or a quote; then it is quoted, so remove
     // these quotes. Characters may also be escaped, but these are left as-is.
+    // (The tab that git appends when the name contains a space, see below, comes after the
+    // closing quote.)
+    let path = if git_diff_name {
+        path.strip_suffix('\t').unwrap_or(path)
+    } else {
+        path
+    };
     let path = remove_surrounding_quotes(path);
     // It appears that, if the file name contains a space, git appends a tab
     // character in the diff metadata lines, e.g.
